@@ -26,10 +26,16 @@ def romanWhile : Nat → Int → Int → List Text → Except Err (List Text)
       | .error e => .error e
     else .ok result
 
-/-- `format_int_roman`, from the translated pieces (`0 < value < 4000` has at most 4 digits). -/
+/-- `format_int_roman`, from the translated pieces: assert, prologue (`divmod(value, 1000)`,
+`result = []`, `index = 0`), loop (the three low digits: at most 3 passes), epilogue. -/
 def genFormatIntRoman (value : Int) : Except Err Text :=
   if format_int_roman_pre value = true then
-    (romanWhile 4 value 0 []).map format_int_roman_post
+    match liftErr (format_int_roman_init value) with
+    | .error e => .error e
+    | .ok (thousands, v, i, r) =>
+      match romanWhile 3 v i r with
+      | .error e => .error e
+      | .ok r' => liftErr (format_int_roman_post thousands r')
   else .error .assertion
 
 /-- `while value != 0: <body>` of `format_int_alpha`, at most `fuel` passes. -/
@@ -45,7 +51,12 @@ def alphaWhile : Nat → Int → List Text → Except Err (List Text)
 /-- `format_int_alpha`, from the translated pieces (`(value − 1) // 26 < value`: `value` passes suffice). -/
 def genFormatIntAlpha (value : Int) : Except Err Text :=
   if format_int_alpha_pre value = true then
-    (alphaWhile value.toNat value []).map format_int_alpha_post
+    match liftErr (format_int_alpha_init value) with
+    | .error e => .error e
+    | .ok (v, r) =>
+      match alphaWhile v.toNat v r with
+      | .error e => .error e
+      | .ok r' => liftErr (format_int_alpha_post r')
   else .error .assertion
 
 end PdfVerif.LabelsGen
